@@ -55,6 +55,16 @@ impl Emit {
         l.push_str(&res);
         self.lines.push(l);
     }
+    /// a case whose implementation result was computed by the generator itself (a batch build): recorded as is
+    pub fn case_with_result(&mut self, op: &str, args: &[String], res: &str, nt: bool) {
+        self.next += 1;
+        let mut l = format!("{}\t{}", self.next, op);
+        for a in args { l.push('\t'); l.push_str(a); }
+        l.push_str("\t=>\t");
+        l.push_str(res);
+        self.lines.push(l);
+        if nt { self.nt(); }
+    }
     /// mark the most recent case as non-trivial by the property's stated rule
     pub fn nt(&mut self) { self.nontrivial.push(self.next); }
     pub fn case_nt(&mut self, op: &str, args: &[String], nt: bool) { self.case(op, args); if nt { self.nt() } }
